@@ -1167,7 +1167,7 @@ var _ = strings.Contains
 func (fr *Frame) checkGlobalInvs(st *State, g *ssa.Global) {
 	vc := fr.vc
 	for _, gi := range vc.p.globalInvs {
-		if fr.fn.Pkg == nil || fr.fn.Pkg.Pkg.Name() != gi.Pkg {
+		if fr.fn.Pkg == nil || !gi.inPkg(fr.fn.Pkg.Pkg) {
 			continue
 		}
 		names := map[string]bool{}
